@@ -217,6 +217,107 @@ theorem script_text_dropped (t : Tables) (o : Ops) (isHtml : Bool) (st : St) (ta
   · apply text_suppressed
     rw [hst]; omega
 
+/-! ### the suppressed region, for token sequences of any length and nesting -/
+
+/-- the only tokens that can lower the suppression counter: end tags of
+`unacceptable_elements_with_end_tag` -/
+def closesUnacc (t : Tables) : Tok → Bool
+  | .etag tag => t.unacc.contains tag
+  | _ => false
+
+/-- no other token lowers the counter, in any state -/
+theorem step_counter_mono (t : Tables) (o : Ops) (isHtml : Bool) (st : St) (tok : Tok)
+    (h : closesUnacc t tok = false) : st.unacceptable ≤ (step t o isHtml st tok).1.unacceptable := by
+  cases tok with
+  | stag tag attrs =>
+    simp only [step, start]
+    split
+    · simp only [pre, preSt]; split <;> omega
+    · exact Int.le_refl _
+  | etag tag =>
+    simp only [closesUnacc] at h
+    simp only [step, stop, stopSt, h]
+    split
+    · simp only [Bool.false_eq_true, ↓reduceIte]
+      split
+      · split <;> exact Int.le_refl _
+      · split
+        · split <;> exact Int.le_refl _
+        · exact Int.le_refl _
+    · exact Int.le_refl _
+  | text x => exact Int.le_refl _
+  | charref r => exact Int.le_refl _
+  | entref r => exact Int.le_refl _
+  | comment c => exact Int.le_refl _
+  | pi x => exact Int.le_refl _
+  | decl x => exact Int.le_refl _
+  | mdecl x => exact Int.le_refl _
+
+/-- **the whole body of a script / style / applet element is dropped, whatever it contains**: from a
+state whose counter is positive, a token sequence of ANY length and nesting that does not contain an
+end tag of an unacceptable element emits no text piece at all — start tags, other end tags,
+comments, references, nested unacceptable elements in between cannot re-enable text. -/
+theorem suppressed_region (t : Tables) (o : Ops) (isHtml : Bool) (toks : List Tok) :
+    ∀ st : St, 0 < st.unacceptable → (∀ tok ∈ toks, closesUnacc t tok = false) →
+      ∀ p ∈ run t o isHtml st toks, ∀ x, p ≠ .text x := by
+  induction toks with
+  | nil => intro st _ _ p hp; simp [run] at hp
+  | cons tok rest ih =>
+    intro st hpos hall p hp x
+    have hm := step_counter_mono t o isHtml st tok (hall tok (List.mem_cons_self))
+    have hpos' : 0 < (step t o isHtml st tok).1.unacceptable := by omega
+    have hrest := ih (step t o isHtml st tok).1 hpos' (fun k hk => hall k (List.mem_cons_of_mem _ hk))
+    have hne : ∀ q, (step t o isHtml st tok).2 = some q → q ≠ .text x := by
+      intro q hq
+      cases tok with
+      | text y =>
+        have : st.unacceptable ≠ 0 := by omega
+        simp [step, this] at hq
+      | stag tag attrs =>
+        intro e; subst e
+        simp only [step, start] at hq
+        split at hq
+        · simp only [emit] at hq
+          split at hq
+          · cases hq
+          · split at hq
+            · cases hq
+            · split at hq <;> cases hq
+        · cases hq
+      | etag tag =>
+        intro e; subst e
+        simp only [step, stop, stopEmit] at hq
+        split at hq
+        · split at hq
+          · cases hq
+          · split at hq <;> cases hq
+        · cases hq
+      | charref r => intro e; subst e; simp [step] at hq
+      | entref r => intro e; subst e; simp [step] at hq
+      | comment c => intro e; subst e; simp [step] at hq
+      | pi y => simp [step] at hq
+      | decl y => simp [step] at hq
+      | mdecl y => simp [step] at hq
+    unfold run at hp
+    cases hs : step t o isHtml st tok with
+    | mk st' op =>
+      rw [hs] at hp
+      have h1 : st' = (step t o isHtml st tok).1 := by rw [hs]
+      cases op with
+      | none => simp only at hp; rw [h1] at hp; exact hrest p hp x
+      | some q =>
+        simp only [List.mem_cons] at hp
+        rcases hp with e | hp
+        · rw [e]; exact hne q (by rw [hs])
+        · rw [h1] at hp; exact hrest p hp x
+
+/-- non-vacuity: `<script>a<b>c</b><!--d--></script>e` — only `e` (and the comment, the `b` tags)
+come out; neither `a` nor `c` does. -/
+example : ((run shipped { safeHref := fun x => x, style := fun _ x => x } true {}
+    [.stag (s "script") [], .text (s "a"), .stag (s "b") [], .text (s "c"), .etag (s "b"),
+     .etag (s "script"), .text (s "e")]).filterMap fun | .text x => some x | _ => none) = [s "e"] := by
+  decide +kernel
+
 /-! ### serializer: a start-tag piece serializes to exactly one tag -/
 
 theorem serialize_stag_shape (t : Tables) (tag : Str) (attrs : List Attr) :
